@@ -14,6 +14,24 @@ def rbytes(rng, n):
     return bytes(rng.getrandbits(8) for _ in range(n))
 
 
+# addresses with special structure: IPv4-mapped / IPv4-compatible / loopback / unspecified / multicast / documentation
+ADDR4_POOL = [bytes([127, 0, 0, 1]), bytes(4), b"\xff" * 4, bytes([10, 0, 0, 1]), bytes([192, 168, 1, 1]), bytes([224, 0, 0, 1]), bytes([203, 0, 113, 66])]
+ADDR6_POOL = [b"\x00" * 10 + b"\xff\xff" + bytes([192, 0, 2, 33]), b"\x00" * 10 + b"\xff\xff" + bytes([127, 0, 0, 1]), b"\x00" * 12 + bytes([10, 0, 0, 7]),
+              b"\x00" * 15 + b"\x01", b"\x00" * 16, b"\xff" * 16, bytes.fromhex("20010db8000000000000000000000001"), bytes.fromhex("fe800000000000000000000000000001"),
+              bytes.fromhex("0064ff9b0000000000000000c0000221")]
+
+
+def raddr(rng, n=None):
+    """an IPv4 (4 bytes) or IPv6 (16 bytes) address: structured ones half of the time"""
+    if n is None:
+        n = rng.choice([4, 16])
+    if rng.random() < 0.5:
+        return rng.choice(ADDR4_POOL if n == 4 else ADDR6_POOL)
+    if n == 16 and rng.random() < 0.2:
+        return b"\x00" * 10 + b"\xff\xff" + rbytes(rng, 4)
+    return rbytes(rng, n)
+
+
 def rand_value(rng, maxlen=40, depth=0):
     """a canonical single RLP item"""
     c = rng.random()
@@ -286,6 +304,24 @@ def text_edits(rng, recbytes):
     return out
 
 
+def utf8_strings(rng, recbytes=None):
+    """valid UTF-8 strings with multi-byte characters at every small byte offset (a parser that slices by byte
+    offset meets a character boundary problem exactly there), with and without an enr: prefix / base64 body"""
+    body = b64(recbytes) if recbytes else b"AAAA"
+    chars = ["\u00e9", "\u20ac", "\U0001f600", "\u0131"]
+    out = []
+    for ch in chars:
+        c = ch.encode()
+        for pre in (b"", b"a", b"ab", b"abc", b"abcd", b"e", b"en", b"enr", b"enr:", b"enr:A", b"ENR"):
+            out.append(pre + c)
+            out.append(pre + c + body)
+            out.append(pre + c + b":" + body)
+    out.append("\u00e9\u00e9".encode())
+    out.append("\u00e9\u00e9\u00e9".encode() + body)
+    out.append(b"enr:" + body[:5] + "\u20ac".encode() + body[5:])
+    return out
+
+
 # ---------------------------------------------------------------- histories (C05..C10, C14, C15)
 
 def tv(kind, arg):
@@ -318,7 +354,13 @@ def rand_op(rng, keyslots, own_entry, pubs):
     """one op command line (without the leading 'op') — name slot fail args..."""
     slot = rng.choice(keyslots) if rng.random() < 0.25 else keyslots[0]
     fail = "1" if rng.random() < 0.06 else "0"
-    k_any = lambda: rng.choice(RESERVED + [own_entry] + CUSTOM_KEYS) if rng.random() < 0.85 else rbytes(rng, rng.randrange(0, 5))
+    def k_any():
+        c0 = rng.random()
+        if c0 < 0.12:
+            return own_entry
+        if c0 < 0.4:
+            return rng.choice(RESERVED)
+        return rng.choice(RESERVED + [own_entry] + CUSTOM_KEYS) if c0 < 0.9 else rbytes(rng, rng.randrange(0, 5))
     c = rng.random()
     if c < 0.06:
         return "set_seq %s %s %d" % (slot, fail, rng.choice(SEQ_POOL) if rng.random() < 0.7 else rng.randrange(2**64))
@@ -328,7 +370,7 @@ def rand_op(rng, keyslots, own_entry, pubs):
         v = rng.choice(RAW_POOL) if rng.random() < 0.7 else rand_value(rng, 30)
         return "insert_raw %s %s %s %s" % (slot, fail, hx(k_any()), hx(v))
     if c < 0.42:
-        return "set_ip %s %s %s" % (slot, fail, rbytes(rng, rng.choice([4, 16])).hex())
+        return "set_ip %s %s %s" % (slot, fail, raddr(rng).hex())
     if c < 0.54:
         return "%s %s %s %d" % (rng.choice(["set_udp4", "set_udp6", "set_tcp4", "set_tcp6"]), slot, fail, rng.choice(PORT_POOL) if rng.random() < 0.7 else rng.randrange(65536))
     if c < 0.60:
@@ -337,7 +379,7 @@ def rand_op(rng, keyslots, own_entry, pubs):
         b = rng.choice(["none", hx(b"7fcb567"), hx(b"")])
         return "set_client_info %s %s %s %s %s" % (slot, fail, hx(rng.choice([b"Nethermind", b"", b"x" * 30])), hx(rng.choice([b"1.9.53", b"v"])), b)
     if c < 0.72:
-        return "%s %s %s %s %d" % (rng.choice(["set_udp_socket", "set_tcp_socket"]), slot, fail, rbytes(rng, rng.choice([4, 16])).hex(), rng.choice(PORT_POOL))
+        return "%s %s %s %s %d" % (rng.choice(["set_udp_socket", "set_tcp_socket"]), slot, fail, raddr(rng).hex(), rng.choice(PORT_POOL))
     if c < 0.78:
         return "%s %s %s" % (rng.choice(["remove_udp_socket", "remove_udp6_socket", "remove_tcp_socket", "remove_tcp6_socket"]), slot, fail)
     if c < 0.86:
@@ -369,11 +411,11 @@ def rand_bcalls(rng, pubs):
     for _ in range(rng.choice([0, 1, 2, 3, 5])):
         c = rng.random()
         if c < 0.15:
-            out.append("ip4/" + rbytes(rng, 4).hex())
+            out.append("ip4/" + raddr(rng, 4).hex())
         elif c < 0.25:
-            out.append("ip6/" + rbytes(rng, 16).hex())
+            out.append("ip6/" + raddr(rng, 16).hex())
         elif c < 0.3:
-            out.append("ip/" + rbytes(rng, rng.choice([4, 16])).hex())
+            out.append("ip/" + raddr(rng).hex())
         elif c < 0.5:
             out.append("%s/%d" % (rng.choice(["tcp4", "tcp6", "udp4", "udp6"]), rng.choice(PORT_POOL)))
         elif c < 0.55:
@@ -415,5 +457,11 @@ def history(rng, oracle, kt, steps, start=None):
         lines.append("load " + rec["bytes"].hex())
     names = [s for s, _ in slots]
     for _ in range(steps):
-        lines.append("op " + rand_op(rng, names, a.entry, pubs))
+        if lines[-1].startswith("op ") and rng.random() < 0.15:
+            # the same call again: an update that changes nothing but must still count as one (seq + 1, re-signed)
+            t = lines[-1].split()
+            t[3] = "0"
+            lines.append(" ".join(t))
+        else:
+            lines.append("op " + rand_op(rng, names, a.entry, pubs))
     return [l.rstrip() for l in lines]
